@@ -110,6 +110,18 @@ def run(ctx, desc):
                             if origin == "imported":
                                 od[vm.index].value_raw = None
                         edited += 1
+                    elif o.kind == "var" and vm.dt in R.REALS and vm.default_rel is None:
+                        # an application sets a REAL object to a whole number and writes it as a Python int
+                        vm.default = rng.choice([100, 0, 7, -3])
+                        od[vm.index].default = vm.default
+                        if origin == "imported":
+                            od[vm.index].default_raw = None
+                        if dcf:
+                            vm.value = rng.choice([250, 1, 0])
+                            od[vm.index].value = vm.value
+                            if origin == "imported":
+                                od[vm.index].value_raw = None
+                        edited += 1
                 if edited:
                     fp = io.StringIO()
                     canopen.export_od(od, fp, doc_type=doc)
